@@ -45,6 +45,12 @@ def classify(kf, rec):
     cl = kf.get("classifier")
     if cl == "quote-nesting-exponential":
         return c.get("family") in ("quote-nesting",) or (rec["what"].startswith("time") and re.match(r"^(> ?){12,}", c.get("doc", "")) is not None)
+    if cl == "deep-nesting-recursion-error":
+        d = c.get("doc", "")
+        deep = bool(re.match(r"^(> ?){150,}", d)) or d.count("\n" + " " * 300) > 0 or len(re.findall(r"\*a ", d)) >= 150
+        return "RecursionError" in rec["what"] and deep
+    if cl == "quadratic-in-atomic-constructs":
+        return c.get("family") == "atoms-quadratic"
     if cl == "nul-placeholder-in-plaintext":
         return bool(c.get("opts", {}).get("plaintext")) and "\x00AC" in c.get("doc", "")
     return False
@@ -135,7 +141,7 @@ def run(chk: Check) -> None:
     ntot = 0
     opts_pool = [dict(o) for o in docports.OPTION_SETS] + [dict(width=w, plaintext=True) for w in (0, 10, 88)]
     fixed = ["[^\nfn]: x\n", "a\n\n[^\nfn]: `` ` `` quick\n", "[^a\nb\nc]: x\n    y\n", "> [^\n> fn]: x\n",     # inputs that once made the parser loop forever (fix 6756391)
-             "[^n]:\t&", "a[^n]\n\n[^n]:\tx y\n    more\n", "> [^n]:\t\tx\n", "- a\n\n  [^n]: \t x\n",                  # tab after the colon of a footnote definition (fix 409e762)
+             "[^n]:\t&", "a[^n]\n\n[^n]:\tx y\n    more\n", "> [^n]:\t\tx\n", "- a\n\n  [^n]: \t x\n", "a[^f\tn]\n\n[^f\tn]: x\n    y\n", " [^a\tb\tc]:\tq\n",                  # tab after the colon of a footnote definition (fix 409e762)
              "a " + "`" * 1500 + "x b\n"]                                                                                 # long backtick run in a paragraph (fix 05d3e30)
     for i in range(1200 * n):
         doc = fixed[i] if i < len(fixed) else (gen_docs.gen_malformed(rng) if rng.random() < 0.7 else gen_docs.gen_doc(rng))
@@ -210,7 +216,23 @@ def run(chk: Check) -> None:
             chk.fail("property", {"family": "quote-nesting", "depth": depth, "seconds": dt, "prev_seconds": prev, "doc": "> " * depth + "a"},
                      "time: parse time grows exponentially with quote nesting depth (x4 per 2 levels)", classify)
         prev = dt
-    chk.port_stat("pumped families / nesting depth", len(FAMILIES) * 6 + 7, nbp)
+    # listed findings: very deep nesting raises RecursionError (D-92); time quadratic in the number of atomic constructs of one paragraph (D-91)
+    for doc in (">" * 400 + " x\n", "".join("  " * i + "- x\n" for i in range(200))):
+        out, dt, err = timed(reformat_text, doc)
+        chk.count()
+        if err:
+            chk.fail("property", {"doc": doc, "opts": {}, "nesting": True}, f"raised {err}", classify)
+    ts = []
+    for m in (1200, 2400):
+        doc = " ".join(f"[a{i}](u{i})" for i in range(m)) + "\n"
+        out, dt, err = timed(reformat_text, doc, width=88)
+        ts.append(dt)
+        chk.count()
+    chk.hist("atoms_seconds", f"1200:{ts[0]:.2f} 2400:{ts[1]:.2f}")
+    if ts[1] > 0.8 and ts[1] > 3.2 * max(ts[0], 0.01):
+        chk.fail("property", {"family": "atoms-quadratic", "seconds_n": ts[0], "seconds_2n": ts[1]},
+                 f"time grows quadratically with the number of links in one paragraph: {ts[0]:.2f}s for 1200, {ts[1]:.2f}s for 2400", classify)
+    chk.port_stat("pumped families / nesting depth", len(FAMILIES) * 6 + 11, nbp)
 
 
 def replay(path: str) -> int:
